@@ -50,7 +50,7 @@ def val_text(v):
             raise TypeError('datetime with microseconds / tz')
         return 'd%d.%d.%d.%d.%d.%d' % (v.year, v.month, v.day, v.hour, v.minute, v.second)
     if isinstance(v, decimal.Decimal):
-        return 'c' + hs(str(v))     # the model has no decimal values: it reads the text and answers Unmodelled for a decimal field
+        return 'c' + hs(str(v))     # the model carries a decimal by its text (model/Dec.v); the driver reads 'c' as that text
     raise TypeError('unsupported value type %s' % type(v).__name__)
 
 
@@ -101,6 +101,10 @@ def canon_entries(t, drop_other=False, other_values=True):
                 continue
             if not other_values:
                 v = ''
+        if v[:1] == 'c':
+            # a decimal.Decimal: the model carries it BY ITS TEXT (model/Dec.v: VStr (str(d))), the driver prints that text as
+            # a str; the comparison with the model is on the text (the Decimal TYPE of the value is the oracles' business)
+            v = 's' + v[1:]
         out[k] = v
     return out
 
